@@ -68,7 +68,11 @@ def handle (op : String) (req : Json) : Except String Json := do
     let lg : Rat → FV := fun x => match table.find? (fun e => e.1 == x) with
       | some e => e.2
       | none => none
-    let g ← getList getOptRat (← field req "g")
+    let gl ← getList getOptRat (← field req "g")
+    -- heap content of the allocated blocks: cell k holds gl[k] (NaN beyond the list)
+    let g : Nat → FV := fun k => match gl[k]? with
+      | some v => v
+      | none => none
     let withOut ← getBool (← field req "with_out")
     pure (reply fvJson (if withOut then shannonEntropy lg p g else shannonEntropyNoOut lg p g))
   | "manhattan" =>
@@ -76,20 +80,20 @@ def handle (op : String) (req : Json) : Except String Json := do
     let ncols ← getNat (← field req "ncols")
     let y ← getList getRat (← field req "y")
     let out ← getOptList getRat req "out"
-    pure (reply (listJson ratJson) (manhattan X ncols y out))
+    pure (reply (listJson ratJson) (manhattan X ncols y out (fun k => (k : Rat) + 17)))
   | "euclidean2" =>
     -- `sqrtF := id`: the squared distances (the caller applies the correctly rounded sqrt)
     let X ← getList (getList getRat) (← field req "X")
     let ncols ← getNat (← field req "ncols")
     let y ← getList getRat (← field req "y")
     let out ← getOptList getRat req "out"
-    pure (reply (listJson ratJson) (euclidean id X ncols y out))
+    pure (reply (listJson ratJson) (euclidean id X ncols y out (fun k => (k : Rat) + 17)))
   | "hamming" =>
     let X ← getList (getList getRat) (← field req "X")
     let ncols ← getNat (← field req "ncols")
     let y ← getList getRat (← field req "y")
     let out ← getOptList getRat req "out"
-    pure (reply (listJson fvJson) (hamming X ncols y out))
+    pure (reply (listJson fvJson) (hamming X ncols y out (fun k => (k : Rat) + 17)))
   | "bincount" =>
     let a ← getList (getList getInt) (← field req "a")
     let fa ← getNat (← field req "fa")
@@ -98,7 +102,7 @@ def handle (op : String) (req : Json) : Except String Json := do
     let na ← getNat (← field req "na")
     let nb ← getNat (← field req "nb")
     pure (reply (listJson (listJson (listJson (listJson natJson))))
-      (matrixBincount2d a fa b fb na nb (fun _ _ _ _ => 0)))
+      (matrixBincount2d a fa b fb na nb (fun k => 1000 + k)))
   | _ => throw s!"bad-op C19.{op}"
 
 end Drv.C19
